@@ -139,7 +139,8 @@ macro_rules! adapter {
                 }
                 let mut b = vec![0xEEu8; want_t.len() - 1];
                 match no_panic(|| postcard::to_slice(&t, &mut b).map(|s| s.len())) {
-                    Ok(Err(postcard::Error::SerializeBufferFull)) => {}
+                    // (which error: C05's statement) 
+                    Ok(Err(_)) => {}
                     other => return Err(fail("fixint", format!("{}: to_slice of {{head, x}} into {} bytes (one short) gave {:?}", $label, want_t.len() - 1, other), cj())),
                 }
                 let via_w = no_panic(|| postcard::to_io(&t, Vec::<u8>::new())).map_err(|p| fail("fixint", format!("to_io panicked: {}", p), cj()))?;
@@ -150,7 +151,8 @@ macro_rules! adapter {
             // one byte short of the fixed field
             let short = &got[..1 + N - 1];
             match no_panic(|| postcard::from_bytes::<$sname>(short)) {
-                Ok(Err(postcard::Error::DeserializeUnexpectedEnd)) => {}
+                // (which error: C03's statement)
+                Ok(Err(_)) => {}
                 other => return Err(fail("fixint", format!("{}: {} bytes of a {}-byte field gave {:?}", $label, N - 1, N, other), cj())),
             }
             // non-trivial: LE and BE byte strings differ
@@ -216,7 +218,7 @@ pub fn run(ctx: &Ctx) {
         "cases: 16 structs {before: u8, #[serde(with = fixint::le|be)] x: T, after: u16} for T in u16..u128, i16..i128; all 65536 \
          values for the 16-bit types; for wider types every single-non-zero-byte pattern (position x 255), boundaries and \
          bit-length-stratified random values. oracle: bytes == [before] ++ the integer's bytes in the chosen order (extracted by \
-         shifting) ++ varint(after); decode returns the original (slice, from_io, from_eio, from_io with short reads + Interrupted); COBS-framed encoding of {pad, x} with 0 / ~250 pad bytes equals the COBS transform of the same bytes and decodes back; to_io into a whole-buffer writer and into a writer accepting 1..8 bytes per call (with Interrupted) delivers the same bytes; to_slice into a buffer of exactly the encoded length succeeds also when the fixed-width field is last ({head: u16, x}) and one byte less is SerializeBufferFull; a field one byte short is UnexpectedEnd. non-trivial = value \
+         shifting) ++ varint(after); decode returns the original (slice, from_io, from_eio, from_io with short reads + Interrupted); COBS-framed encoding of {pad, x} with 0 / ~250 pad bytes equals the COBS transform of the same bytes and decodes back; to_io into a whole-buffer writer and into a writer accepting 1..8 bytes per call (with Interrupted) delivers the same bytes; to_slice into a buffer of exactly the encoded length succeeds also when the fixed-width field is last ({head: u16, x}) and one byte less is an error; a field one byte short is an error. non-trivial = value \
          whose little- and big-endian byte strings differ; distinct = hash(adapter, value)",
     );
     let ads = adapters();
